@@ -324,7 +324,8 @@ def _interrupt(item, tier, data, arows, adirs, other, res, viol):
             res["counters"]["interrupts_ending_in_a_traceback"] = res["counters"].get("interrupts_ending_in_a_traceback", 0) + 1
         # all-or-nothing: an interrupt that lands after the commit leaves a completed restore (judged as one), any other nothing
         rows_after = hist.rows(root) or []
-        committed = bool(arows) and all(tuple(x) in [tuple(y) for y in rows_after] for x in arows)
+        before_set = {tuple(y) for y in (rows_before or [])}
+        committed = bool(arows) and not any(tuple(x) in before_set for x in arows) and all(tuple(x) in [tuple(y) for y in rows_after] for x in arows)
         oracle(root, rows_before, recorded_before, arows, adirs, success or committed, viol, art, "interrupt")
     res["sample"] = {"prior": item["prior"], "archive_rows": arows, "interrupt_points": N}
 
